@@ -193,13 +193,13 @@ rule('X7', 'builder', r"impl Default\n    for CliBuilder<EmptyWriter, Infallible
      flags=re.M | re.S)
 
 # ---- help -------------------------------------------------------------------------------------------
-rule('D6', 'help', r"else if args\.any\(\|arg\| arg == Arg::LongOption\(\"help\"\) \|\| arg == Arg::ShortOption\('h'\)\) \{",
-     'else if {\n            let mut __found = false;\n            loop {\n                match args.next() {\n'
+rule('D6', 'help', r"(?<=if )([\w\.\(\)\s]+?)\s*\.any\(\|arg\| arg == Arg::LongOption\(\"help\"\) \|\| arg == Arg::ShortOption\('h'\)\)",
+     r'{\n            let mut __it = \1;\n            let mut __found = false;\n            loop {\n                match __it.next() {\n'
      '                    Some(arg) => {\n                        if arg == Arg::LongOption("help") || arg == Arg::ShortOption(\'h\') {\n'
      '                            __found = true;\n                            break;\n                        }\n                    }\n'
-     '                    None => {\n                        break;\n                    }\n                }\n            }\n            __found\n        } {', 1,
-     'Iterator::any(pred) == loop over next() that stops at the first element satisfying pred (definition of any); '
-     'ArgsIter is not an Iterator in the mirror (D7)')
+     '                    None => {\n                        break;\n                    }\n                }\n            }\n            __found\n        }', 1,
+     'Iterator::any(pred) on an ArgsIter == loop over next() that stops at the first element satisfying pred '
+     '(definition of any); ArgsIter is not an Iterator in the mirror (D7)')
 
 # ---- command ----------------------------------------------------------------------------------------
 rule('D11', 'command', r"#\[derive\(Clone, Debug, Eq, PartialEq\)\]\npub struct RawCommand<'a> \{(.*?)\n\}\n",
